@@ -120,6 +120,9 @@ class Program:
         if name in self.user:
             memo[name] = self.user[name]
             return memo[name]
+        if name in getattr(self, 'overlay', ()):
+            memo[name] = self.overlay[name]
+            return memo[name]
         if name in self.sources:
             memo[name] = self.src_bytes(name)
             return memo[name]
@@ -153,7 +156,7 @@ class Program:
         """Would a from-scratch build of `name` succeed?"""
         if name in memo:
             return memo[name]
-        if name in self.user or name in self.sources or name in self.watch:
+        if name in self.user or name in self.sources or name in self.watch or name in getattr(self, 'overlay', ()):
             return True
         memo[name] = True
         t = self.targets[name]
